@@ -13,7 +13,7 @@ RULE_NAMES = ['Netflix', 'Uber Eats', 'Uber', 'AMZN #1', 'Rule 7', 'Coffee ☕',
               'Large', 'Holiday', 'Travel-Inn', 'x']
 CATEGORIES = ['Food', 'Subscriptions', 'Bills & Utilities', 'Shopping', 'Transport', 'Transfers: Out']
 SUBCATS = ['', '', 'Streaming', 'Delivery', 'Online', 'Rideshare']
-STATIC_TAGS = ['recurring', 'Food', ' large ', 'INCOME', 'transfer', 'business', 'Review', 'x-y', 'ünï', '#tax', 'schedule #e']
+STATIC_TAGS = ['recurring', 'Food', ' large ', 'INCOME', 'transfer', 'business', 'Review', 'x-y', 'ünï', '#tax', 'schedule #e', "macy's", "kohl's", 'say "hi"']
 LET_NAMES = ['m', 't', 'flag', 'lbl']
 
 
